@@ -3,6 +3,7 @@
 package encjson
 
 import (
+	"errors"
 	"fmt"
 	"runtime"
 	"sync"
@@ -59,6 +60,11 @@ func Encode(c *gen.Case, viaCore bool) (line []byte, problem string) {
 		_ = core.Write(c.Ent, nil)
 		if hist > 1 {
 			_ = core.Write(c.Ent, fields)
+			// and an entry whose destination refuses it: the failed write is over when it returns
+			failing := zapcore.NewCore(enc, failingSink{}, zapcore.Level(-128))
+			if err := failing.Write(c.Ent, fields); err == nil {
+				return nil, "core.Write over a sink whose Write fails returned nil"
+			}
 		}
 		sink.Reset()
 	}
@@ -71,6 +77,11 @@ func Encode(c *gen.Case, viaCore bool) (line []byte, problem string) {
 	}
 	return ws[0], ""
 }
+
+type failingSink struct{}
+
+func (failingSink) Write(p []byte) (int, error) { return 0, errors.New("injected write failure") }
+func (failingSink) Sync() error                 { return nil }
 
 func parallel(n int, f func(i int)) {
 	workers := runtime.GOMAXPROCS(0)
